@@ -1,9 +1,78 @@
 // C14 — Deck::draw for a forced uniform index (hook H1/H3) vs the Lean model `drawAt`,
 // plus the search oracle: i-th lowest card, bijection, removal, and the un-overridden
 // draw's support/frequencies on small decks (6-sigma).
+#[path = "../gamewalk.rs"]
+mod gamewalk;
 use robopoker::cards::deck::Deck;
 use robopoker::cards::hand::Hand;
+use robopoker::gameplay::action::Action;
+use robopoker::gameplay::ply::Turn;
 use rpharness::*;
+
+/// dealing half: along random histories of the real Game (with the engine's own offered draws
+/// and with forced ones) hole cards and board stay pairwise disjoint, `Game::deck()` is the
+/// complement of the cards in play, and every offered draw consists of cards not in play.
+/// Oracle written from the property text; the `game` / `deck` / `allowed` lines are replayed by
+/// the Lean model (`deck` lines only in the standard-deck build: the model's mask is the 52-card one).
+fn game_stream(run: &mut Run, rng: &mut Rng, n_hist: usize) {
+    use gamewalk::*;
+    let full = bits(hand(Hand::mask()));
+    let deals = make_deals(rng, 48);
+    for h in 0..n_hist {
+        let deal = &deals[h % deals.len()];
+        let style = 1 + (h / deals.len()) as u64 % 2 * 3; // passive lines reach the river, mixed with uniform ones
+        let (hist, states) = random_history(rng, deal, style);
+        run.evaluations += states.len() as u64;
+        let name = format!("{} {} | {}", deal.h0, deal.h1, hist_tok(&hist));
+        run.line(&format!("game {name}"), &states.iter().map(state_line).collect::<Vec<_>>().join(" ; "));
+        for (i, g) in states.iter().enumerate() {
+            let at = format!("{} {} | {}", deal.h0, deal.h1, hist_tok(&hist[..i]));
+            let seats = g.verif_seats();
+            let (h0, h1, b) = (bits(Hand::from(seats[0].4)), bits(Hand::from(seats[1].4)), board_bits(g));
+            run.spec_checked += 1;
+            if h0 & h1 != 0 || h0 & b != 0 || h1 & b != 0 || h0 != deal.h0 || h1 != deal.h1 {
+                run.fail("cards-in-play-overlap", &format!("deck {at}"), "holes and board pairwise disjoint, holes unchanged", &format!("holes {h0} {h1} board {b}"));
+            }
+            if ![0, 3, 4, 5].contains(&b.count_ones()) || (h0 | h1 | b) & !full != 0 {
+                run.fail("board-size", &format!("deck {at}"), "0/3/4/5 board cards of the deck", &format!("board {b}"));
+            }
+            let gg = *g;
+            let deck = catch(move || bits(Hand::from(gg.deck())));
+            match deck {
+                None => run.fail("deck-panics", &format!("deck {at}"), "a deck", "panic"),
+                Some(d) => {
+                    if d != full & !(h0 | h1 | b) {
+                        run.fail("deck-not-complement", &format!("deck {at}"), &format!("{}", full & !(h0 | h1 | b)), &format!("{d}"));
+                    }
+                    if !is_shortdeck() && (i == states.len() - 1 || g.turn() == Turn::Chance) {
+                        run.line(&format!("deck {at}"), &format!("{d} {b} {h0} {h1}"));
+                    }
+                    if g.turn() == Turn::Chance {
+                        // the engine's offers: never a card in play, right size, accepted
+                        let mut offers = vec![];
+                        for _ in 0..4 {
+                            let o = g.draw();
+                            let ob = bits(o);
+                            run.evaluations += 1;
+                            run.spec_checked += 1;
+                            let want = if b == 0 { 3 } else { 1 };
+                            if ob & (h0 | h1 | b) != 0 || ob & !d != 0 || ob.count_ones() != want || !g.is_allowed(&Action::Draw(o)) {
+                                run.fail("offered-draw-in-play", &format!("deck {at}"), &format!("{want} cards of the deck {d}, accepted"), &format!("offer {ob}"));
+                            }
+                            offers.push(Action::Draw(o));
+                            run.distinct(&(b, ob));
+                        }
+                        offers.push(Action::Draw(hand(rng.cards(1, h0 | h1 | b) | rng.cards(if b == 0 { 2 } else { 0 }, d)))); // one card in play
+                        let ans: String = offers.iter().map(|c| if g.is_allowed(c) { '1' } else { '0' }).collect();
+                        run.line(&format!("allowed {at} | {}", offers.iter().map(act_tok).collect::<Vec<_>>().join(" ")), &ans);
+                        run.count(&format!("offers:{}", street_name(g)));
+                    }
+                }
+            }
+            run.count(&format!("game-state:{}", street_name(g)));
+        }
+    }
+}
 
 fn ith_lowest(d: u64, i: u32) -> u8 {
     let mut seen = 0;
@@ -104,5 +173,8 @@ fn main() {
         }
         run.count(&format!("unforced-deck-size={n}"));
     }
+    let n_hist = if a.thorough() { 40_000 } else { 4_000 };
+    run.rule.push_str(&format!("; dealing half: {n_hist} random histories of the real Game over 48 deals with the engine's own offered draws and forced ones, every state checked for pairwise disjoint holes/board and deck = complement, 4 offered draws per chance node"));
+    game_stream(&mut run, &mut rng, n_hist);
     run.finish();
 }
